@@ -30,10 +30,13 @@ class Client:
         self.thread = None
         self.in_op = False
         self.gates = 0
+        self.ops_done = 0          # operations completed (Recorder)
+        self.chased_gate = -1
 
 
 class Sched:
-    def __init__(self, rng, clock, strategy='random', max_steps=6000, preempt_points=None):
+    def __init__(self, rng, clock, strategy='random', max_steps=6000, preempt_points=None, victims=(),
+                 chase_label='pre:fopen'):
         self.rng = rng
         self.clock = clock
         self.strategy = strategy
@@ -50,6 +53,12 @@ class Sched:
         self.aborted = False
         self.lock_waits = 0
         self.tick = 0              # logical time for histories
+        # strategy 'chase' (an adversary): whenever a victim client is about to pass `chase_label` (by default: open
+        # a value file for reading), some other client first completes one whole operation
+        self.victims = set(victims)
+        self.chase_label = chase_label
+        self._chase = None
+        self.chases = 0
 
     # ------------------------------------------------------------ client side
     def _me(self):
@@ -170,7 +179,30 @@ class Sched:
                 run = self._runnable(live) or live
         cur = self.current
         cur_ok = cur is not None and cur in run
-        if self.strategy == 'random':
+        nxt = None
+        if self.strategy == 'chase':
+            if self._chase is not None:
+                w, target, victim = self._chase
+                if w.status != 'done' and w.ops_done < target and w in run:
+                    nxt = w
+                else:
+                    self._chase = None
+                    if victim in run:
+                        nxt = victim
+            if nxt is None:
+                for c in run:
+                    if c.cid in self.victims and c.label == self.chase_label and c.chased_gate != c.gates:
+                        others = [w for w in run if w.cid not in self.victims]
+                        if others:
+                            w = self.rng.choice(others)
+                            c.chased_gate = c.gates
+                            self._chase = (w, w.ops_done + 1, c)
+                            self.chases += 1
+                            nxt = w
+                        break
+        if nxt is not None:
+            pass
+        elif self.strategy in ('random', 'chase'):
             nxt = self.rng.choice(run)
         elif self.strategy == 'roundrobin':
             order = sorted(run, key=lambda c: c.cid)
@@ -230,6 +262,7 @@ class Recorder:
         finally:
             if c is not None:
                 c.in_op = False
+                c.ops_done += 1
         rec['ret'] = self.sched.now()
         rec['t1'] = self.sched.clock.now_peek()       # every clock read of the call lies in [t0, t1]
         return rec
